@@ -709,11 +709,12 @@ def sql_ops_full(case):
             i = names(j)
         elif k == 'del':
             key = sval(i + 2); i = names(i + 2 + len(key))
-        elif k == 'sel':
+        elif k in ('sel', 'selnk'):
             j = i + 3; n = int(t[j]); j += 1
             for _ in range(n): j += 1 + len(sval(j + 1))
             limit = int(t[j])
             i = j + 1
+            if k == 'selnk': i += 1 + len(sval(i + 1))   # non-key column, value
         elif k in ('begin', 'commit', 'rollback'): i = names(i + 2)
         elif k == 'refresh': i = names(names(i + 2))
         elif k in ('version', 'rdconn'): i += 2
@@ -721,7 +722,7 @@ def sql_ops_full(case):
         elif k == 'vacuum': i = names(names(names(i + 3)))
         elif k == 'changes': i = names(names(i + 2))
         else: raise ValueError('sql_ops_full: ' + k)
-        out.append(dict(kind=k, conn=c, key=key, skipped=sk, limit=limit if k == 'sel' else 0))
+        out.append(dict(kind=k, conn=c, key=key, skipped=sk, limit=limit if k in ('sel', 'selnk') else 0))
     return out
 
 _unset = object()
@@ -812,7 +813,7 @@ def rolled_back_insert_excuse(case, j, got, want):
             touched[c].add(q['key'])
         prev = q
     r = R.get(o['conn'], set())
-    if o['kind'] in ('sel', 'selo', 'vacuum'):
+    if o['kind'] in ('sel', 'selo', 'selnk', 'vacuum'):
         # (the connection's next commit persists the row: any reader may then see it)
         r = set().union(*R.values()) if R else set()
     if not r:
@@ -821,7 +822,7 @@ def rolled_back_insert_excuse(case, j, got, want):
         return o['key'] in r
     if o['kind'] == 'commit':
         return bool(touched.get(o['conn'], set()) & r)
-    if o['kind'] == 'selo':
+    if o['kind'] in ('selo', 'selnk'):
         o = dict(o, kind='sel')
     if o['kind'] == 'vacuum' and 'VB' in got and 'VA' in got and 'VB' in want and 'VA' in want:
         # the rows the vacuuming connection sees before its vacuum: as for a SELECT
@@ -881,10 +882,11 @@ def parse_sql_ops(case):
             ops.append(('upd', c, key, partial, tuple(mask))); i = names(j)
         elif k == 'del':
             c = int(t[i + 1]); key = sval(i + 2); ops.append(('del', c, key, None)); i = names(i + 2 + len(key))
-        elif k == 'sel':
+        elif k in ('sel', 'selnk'):
             j = i + 3; n = int(t[j]); j += 1
             for _ in range(n): j += 1 + len(sval(j + 1))
             i = j + 1
+            if k == 'selnk': i += 1 + len(sval(i + 1))
         elif k in ('begin', 'commit', 'rollback'): i = names(i + 2)
         elif k == 'refresh': i = names(names(i + 2))
         elif k in ('version', 'rdconn'): i += 2
@@ -1132,10 +1134,11 @@ def parse_sql_kinds(case):
             out.append((k, c)); i = names(j)
         elif k == 'del':
             c = int(t[i + 1]); out.append((k, c)); i = names(i + 2 + sval_len(i + 2))
-        elif k == 'sel':
+        elif k in ('sel', 'selnk'):
             c = int(t[i + 1]); j = i + 3; n = int(t[j]); j += 1
             for _ in range(n): j += 1 + sval_len(j + 1)
             out.append((k, c)); i = j + 1
+            if k == 'selnk': i += 1 + sval_len(i + 1)
         elif k in ('begin', 'commit', 'rollback'): out.append((k, int(t[i + 1]))); i = names(i + 2)
         elif k == 'refresh': out.append((k, int(t[i + 1]))); i = names(names(i + 2))
         elif k in ('version', 'rdconn'): out.append((k, int(t[i + 1]))); i += 2
